@@ -11,4 +11,7 @@ open GA.Gen.Arr GA.Arr
   unfold boxArms; rfl
 @[ga_bridge] theorem helperUnitIsOnePerExpr_eq : helperUnitIsOnePerExpr = true := by bridge_bool [helperUnitIsOnePerExpr]
 @[ga_bridge] theorem vecHelperLenTied_eq : vecHelperLenTied = true := by bridge_bool [vecHelperLenTied]
+/-- the helper items the expansions define carry reserved (`__`-prefixed) names, so an element
+    expression written by the caller cannot name — and be captured by — one of them -/
+@[ga_bridge] theorem helperNamesReserved_eq : helperNamesReserved = true := by bridge_bool [helperNamesReserved]
 end GA.Bridge.Arr
